@@ -28,6 +28,13 @@ CHECKS = {
              'get_r is a violation. MatchExpr results are substituted back and compared structurally; mutants rejected by the reference matcher must be rejected.',
         note='trusts vf/irsem.py; segment selectors are not probed (flat memory)',
         design='2/C16'),
+    'C05': dict(
+        technique='runtime reference-model monitor: independent IR interpreter evaluates e and expr_simp(e) on boundary/random/exhaustive-8-bit valuations; call counter on _expr_simp as bounded-termination monitor',
+        text='Every simplification executed by the workload (rule-directed templates for every rewrite rule at 5 widths, random depth<=4 trees, lifted '
+             'instruction semantics) is compared in width and value with its input by an independent interpreter; 8-bit two-variable templates on all '
+             '65536 valuations (thorough). Termination is decided as bounded progress. Held on the executions in the evidence; not a proof over all trees.',
+        note='trusts vf/irsem.py; only well-typed inputs (irsem.typecheck) are inside the quantifier; step bound 2000+400*nodes',
+        design='2/C05'),
 }
 
 PENDING_REASON = 'check not built yet in this round (runtime-monitoring design in DESIGN.md section 2); not claimed until it runs clean'
